@@ -772,3 +772,103 @@ def rule_varshift(ctx) -> RuleResult:
                        f"cast dtype {txt[:70]} promotes against a bare Python number: under NumPy 2 weak-scalar rules an unsigned dtype stays unsigned, "
                        "so the shift by the first element wraps for unsigned data")
     return res
+
+
+# ---------------------------------------------------------------------------------------------
+# R-REINDEXDTYPE (C11): re-indexing never makes a dtype decision of its own.
+# reindex_ runs inside tasks *and once more after the final cast* in groupby_reduce, on exactly those plans that leave holes
+# (cohorts, blockwise).  If it widened dtypes on its own (for a fill value, say), the result dtype would depend on the plan.
+# The one sanctioned promotion is xrdtypes.maybe_promote(array.dtype) under a null/NA fill.
+def rule_reindexdtype(ctx) -> RuleResult:
+    res = RuleResult("R-REINDEXDTYPE", "re-indexing keeps the dtype of its input, except NA promotion through xrdtypes.maybe_promote", min_instances=3)
+    prog = ctx.prog
+    f = prog.func("core.reindex_")
+    arr = f.params[0]
+    kernels = {}
+    for c in calls_in(f.node):
+        fn = norm(c.func)
+        g = prog.funcs.get(f"core.{fn}")
+        if g is not None and "dtype" in g.params and len(c.args) >= 1 and norm(c.args[0]) == arr:
+            pos = g.params.index("dtype")
+            d = c.args[pos] if len(c.args) > pos else kwarg(c, "dtype")
+            kernels[fn] = (g, c, d)
+    if not kernels:
+        raise AnalysisError("core.reindex_: no call of a reindex kernel taking (array, ..., dtype, ...)")
+    pm = parents_map(f.node)
+    dtype_vars = {d.id for (_g, _c, d) in kernels.values() if isinstance(d, ast.Name)}
+    for fn, (g, c, d) in sorted(kernels.items()):
+        if d is None:
+            res.report(f"core.reindex_|{fn}|no-dtype", f.where(c), f.qualname, f"'{norm(c)[:70]}' passes no dtype to the kernel")
+            continue
+        if not isinstance(d, ast.Name) and norm(d) != f"{arr}.dtype":
+            res.inst(f"reindex_ -> {fn}: dtype argument '{norm(d)[:50]}'", f"{fn}|arg")
+            res.report(f"core.reindex_|{fn}|dtype-source", f.where(c), f.qualname,
+                       f"the dtype handed to {fn} is '{norm(d)[:60]}', not the input's dtype (or its NA promotion)")
+    from ..astutil import guard_facts
+    for v in sorted(dtype_vars):
+        for a in walk_own(f.node):
+            if not isinstance(a, ast.Assign):
+                continue
+            for t in a.targets:
+                src = None
+                if isinstance(t, ast.Name) and t.id == v:
+                    src = a.value
+                    tuple_pos = None
+                elif isinstance(t, ast.Tuple):
+                    for i, e in enumerate(t.elts):
+                        if isinstance(e, ast.Name) and e.id == v:
+                            src, tuple_pos = a.value, i
+                if src is None:
+                    continue
+                txt = norm(src)
+                if txt == f"{arr}.dtype":
+                    res.inst(f"reindex_: {v} = {txt} (input dtype)", f"def|{txt}")
+                    continue
+                if isinstance(src, ast.Call) and norm(src.func) in ("xrdtypes.maybe_promote", "dtypes.maybe_promote", "maybe_promote") \
+                        and tuple_pos == 0 and len(src.args) == 1 and norm(src.args[0]) == f"{arr}.dtype":
+                    facts = guard_facts(a, pm)
+                    null_guard = any(pol and ("isnull(" in at or "NA ==" in at or "== xrdtypes.NA" in at or "is None" in at or "isnan(" in at)
+                                     for at, pol in facts) or _enclosing_test_mentions_null(a, pm)
+                    res.inst(f"reindex_: {v} = maybe_promote({arr}.dtype)[0] under a null-fill guard: {null_guard}", "def|promote")
+                    if not null_guard:
+                        res.report("core.reindex_|promotion-unguarded", f.where(a), f.qualname,
+                                   f"'{norm(a)[:70]}' promotes the dtype for every fill value, not only for a null / NA fill: integer results "
+                                   "become floating whenever the final reindex has holes to fill (plan-dependent dtype)")
+                    continue
+                res.inst(f"reindex_: {v} = {txt[:60]} (NOT the input dtype)", f"def|{txt[:40]}")
+                res.report(f"core.reindex_|dtype-decision|{txt[:40]}", f.where(a), f.qualname,
+                           f"'{norm(a)[:90]}': re-indexing makes a dtype decision of its own. The last reindex_ of groupby_reduce runs after the cast to "
+                           "agg.dtype['final'] and only when a plan leaves requested labels to fill (cohorts / blockwise), so the announced and computed "
+                           "dtype would depend on strategy and chunking; dtype widening for a fill_value is decided once, in _initialize_aggregation")
+    # kernels: the dtype they cast to is the one they were given
+    for fn, (g, _c, _d) in sorted(kernels.items()):
+        n = 0
+        for c in calls_in(g.node):
+            dd = None
+            if isinstance(c.func, ast.Attribute) and c.func.attr == "astype":
+                dd = c.args[0] if c.args else kwarg(c, "dtype")
+            elif norm(c.func) in ("np.full", "np.full_like", "np.empty", "np.zeros", "np.empty_like", "np.zeros_like", "np.asarray", "np.array"):
+                dd = kwarg(c, "dtype")
+            if dd is None:
+                continue
+            n += 1
+            ok = norm(dd) == "dtype"
+            res.inst(f"{fn}: '{norm(c)[:50]}' uses the dtype it was given: {ok}", f"{fn}|{norm(c)[:40]}")
+            if not ok:
+                res.report(f"core.{fn}|dtype-recomputed", g.where(c), g.qualname,
+                           f"'{norm(c)[:70]}' casts to '{norm(dd)[:40]}' instead of the dtype decided by reindex_")
+        if n == 0:
+            res.notes.append(f"{fn}: no cast / allocation with a dtype")
+    return res
+
+
+def _enclosing_test_mentions_null(node, pm) -> bool:
+    cur = pm.get(id(node))
+    child = node
+    while cur is not None:
+        if isinstance(cur, ast.If) and any(child is s for s in cur.body):
+            t = norm(cur.test)
+            if "isnull(" in t or "NA" in t or "isnan(" in t:
+                return True
+        child, cur = cur, pm.get(id(cur))
+    return False
